@@ -125,7 +125,10 @@ def run(ctx):
         ops = R.tail_ops(2, R.ops_of([s["a"] for s in R.cex_path(r)["steps"]]))
         for kind in ("tcp", "forward", "udp"):
             scs.append(R.scenario("%s-%s" % (site, kind), site_cfg[site]["topo"], kind, ops, idle_ms=0, no_leak=True))
-    chain_ops = R.tail_ops(2, [{"op": "burn", "a": "T", "p": "X"}, {"op": "open", "t": 1}, {"op": "send", "t": 1}, {"op": "open", "t": 2}])
+    # chain with skewed ids; tunnel 1 is ended by its target (close travelling exit -> ingress), tunnel 2 by its ingress
+    chain_ops = [{"op": "burn", "a": "T", "p": "X"}] + [{"op": k, "t": t} for k, t in (
+        ("open", 1), ("send", 1), ("open", 2), ("send", 2), ("rsend", 1), ("rsend", 2), ("tclose", 1), ("send", 2), ("rsend", 2),
+        ("close", 2))]
     for kind in ("tcp", "forward", "udp"):
         scs.append(R.scenario("chain-%s" % kind, "chain", kind, chain_ops, idle_ms=0, no_leak=True))
     # exit-originated close (UDP idle expiry at the exit) with two associations of one ingress and skewed ids; slow reader
